@@ -158,6 +158,19 @@ def install():
             _wrap(eng.TWLCTRFileIO, name, 'twl')
 
 
+class patched_threading:
+    """while readers and handles are constructed, `threading.Lock` / `threading.RLock` themselves hand out logging locks too, so that
+    code which writes `threading.Lock()` instead of importing the name is instrumented the same way"""
+
+    def __enter__(self):
+        self.saved = (threading.Lock, threading.RLock)
+        threading.Lock, threading.RLock = LogLock, LogRLock
+        return self
+
+    def __exit__(self, *a):
+        threading.Lock, threading.RLock = self.saved
+
+
 class Gate:
     """deterministic scheduler: threads stop at every event and continue only when the schedule says so"""
 
